@@ -114,6 +114,7 @@ PLAN = {
              "(thorough) x usize/u64/u128 x slices at offsets x n<K, n=K, n>K",
     ),
     "C09": dict(
+        tlaps=dict(quick=["KmerLaws"]),
         gen=dict(quick=[("Gen_C09", "Gen_C09.cfg"), SYS(25)], thorough=[("Gen_C09", "Gen_C09_T.cfg"), SYS(400)]),
         traces=[("c09", (1, None)), ("c09all", (None, 1)), ("c09x", (2, 4))],
         seeds=dict(quick=1, thorough=5), seeded={"c09x": False},
